@@ -32,11 +32,11 @@ VARIANTS = [
     M('C02', 'sloppy-int-from-any-real', E(BC, "            elif 'int' in allowed_types and actual_type == 'real':\n                result = self.get_non_integer_values_count(colname) == 0", "            elif 'int' in allowed_types and actual_type == 'real':\n                result = True"),
       rule='C02-SEM', key='sloppy'),
     M('C02', 'failure-counted-as-pass-too', E(BS, "                if satisfied:\n                    passes += 1\n                else:\n                    failures += 1", "                passes += 1\n                if not satisfied:\n                    failures += 1"),
-      rule='C02-COUNT', key='path'),
+      rule='C02-COUNT', key='verdicts='),
     M('C02', 'unknown-kind-counted-failed', E(BS, "            else:\n                satisfied = None\n            field_results[c.kind] = satisfied", "            else:\n                satisfied = None\n                failures += 1\n            field_results[c.kind] = satisfied"),
-      rule='C02-COUNT', key='called=False'),
+      rule='C02-COUNT', key='verdicts='),
     M('C02', 'totals-not-accumulated', E(BS, "        results.passes += passes\n", "        results.passes = passes\n"),
-      rule='C02-COUNT', key='results.passes'),
+      rule='C02-COUNT', key='verdicts='),
     M('C02', 'registry-kind-swapped', E(BC, "            'min_length': self.verify_min_length_constraint,\n            'max_length': self.verify_max_length_constraint,", "            'min_length': self.verify_max_length_constraint,\n            'max_length': self.verify_min_length_constraint,"),
       rule='C02-REG', key='verifier:'),
     M('C02', 'max-verifier-not-mirror', E(BC, "        if self.is_null(M):       # If there are no values, no value can\n            return True           # the maximum constraint", "        if self.is_null(M):       # If there are no values, no value can\n            return False          # the maximum constraint"),
